@@ -543,6 +543,15 @@ class UnlimitedCollector(ScoredCollector):
 
 # Sorting collector
 
+def _none_first(key):
+    if key is None:
+        return (0,)
+    elif isinstance(key, tuple):
+        return (1, tuple(_none_first(k) for k in key))
+    else:
+        return (1, key)
+
+
 class SortingCollector(Collector):
     """A collector that returns results sorted by a given
     :class:`whoosh.sorting.Facet` object. See :doc:`/facets` for more
@@ -587,7 +596,13 @@ class SortingCollector(Collector):
 
     def results(self):
         items = self.items
-        items.sort(reverse=self.reverse)
+        try:
+            items.sort(reverse=self.reverse)
+        except TypeError:
+            # Python 3 cannot order None (the key of a document the facet has no
+            # value for) against other keys: such documents sort first
+            items.sort(key=lambda x: (_none_first(x[0]), x[1]),
+                       reverse=self.reverse)
         if self.limit:
             items = items[:self.limit]
         return self._results(items, docset=self.docset)
